@@ -69,6 +69,8 @@ case_st = st.fixed_dictionaries({
     "res_y": st.sampled_from([None, None, 1, 2, 3, 7, 33]),
     # public API, resolution >= 2: which of the four limits are given (None = follow "limits")
     "per_limit": st.one_of(st.none(), st.none(), st.lists(st.booleans(), min_size=4, max_size=4)),
+    # explicit limits as plain numbers (in the unit of the axis) or as quantities in that unit
+    "limit_form": st.sampled_from(["number", "number", "number", "quantity"]),
     # all finite coordinates of an axis identical (degenerate automatic range), at 0, a negative or a positive value
     "identical_x": st.sampled_from([None] * 12 + [0.0, -3.5, 2.5]),
     "identical_y": st.sampled_from([None] * 12 + [0.0, -3.5, 2.5]),
@@ -295,7 +297,9 @@ def binning(case, r):
         kw["operation"] = case["call_op"]
     for nm, g, val in (("xmin", given[0], xl[0]), ("xmax", given[1], xl[1]), ("ymin", given[2], yl[0]), ("ymax", given[3], yl[1])):
         if g:
-            kw[nm] = val
+            kw[nm] = val * osyris.units("cm" if nm[0] == "x" else "g") if case.get("limit_form") == "quantity" else val
+            if case.get("limit_form") == "quantity":
+                r.label("limits_given_as_quantities")
     with warnings.catch_warnings(), np.errstate(all="ignore"):
         warnings.simplefilter("ignore")
         try:
